@@ -12,6 +12,7 @@ from typing import Any, Callable, Dict, Generic, List, Optional, Tuple, Union
 
 from loguru import logger
 
+from tawazi import _verif
 from tawazi._helpers import StrictDict, make_raise_arg_error
 from tawazi.config import cfg
 from tawazi.consts import (
@@ -221,6 +222,8 @@ class ExecNode:
             the result of the execution of the current ExecNode
         """
         logger.debug("Start executing {} with task {}", self.id, self.exec_function)
+        if _verif.ENABLED:
+            _verif.emit("node_enter", xn=self, results=results)
         profiles[self.id] = Profile(cfg.TAWAZI_PROFILE_ALL_NODES)
 
         # 1. prepare args and kwargs for usage:
@@ -240,6 +243,8 @@ class ExecNode:
             try:
                 results[self.id] = self.exec_function(*args, **kwargs)
             except Exception as e:
+                if _verif.ENABLED:
+                    _verif.emit("node_exit", xn=self, results=results, ok=False)
                 if self.call_location:
                     raise TawaziBaseException(
                         f"Error occurred while executing ExecNode {self.id} at {self.call_location}"
@@ -247,6 +252,8 @@ class ExecNode:
 
                 raise e
 
+        if _verif.ENABLED:
+            _verif.emit("node_exit", xn=self, results=results, ok=True)
         # 3. useless return value
         logger.debug("Finished executing {} with task {}", self.id, self.exec_function)
         return results[self.id]
